@@ -22,6 +22,7 @@ var mainRegexMarshaller = regexMarshaller{}
 func (m regexMarshaller) Marshal(name string, regexStr bytes.Bytes) (schema Schema, err error) {
 	defer func() {
 		if r := recover(); r != nil {
+			verifRecovered("catalog.regexMarshaller.Marshal", r)
 			if e, ok := r.(error); ok {
 				err = e
 			} else {
